@@ -104,6 +104,13 @@ def check_object(ctx, case):
         ctx.traces += 1
         if k != "ok" or m != b.hex():
             ctx.diff("codec.enc", desc, m, b.hex())
+        # is this value inside the scope of the generic theorem (HasType, by the sound executable check typedB)?
+        k, m = ctx.driver().call({"op": "codec.typed", "cls": name, "v": v})
+        if k == "ok" and m is True:
+            ctx.count("in_theorem_scope")
+            ctx.extra.setdefault("classes_in_theorem_scope", set()).add(name)
+        else:
+            ctx.count("outside_theorem_scope")
         if T.generic_dec(name) or T.SCH[name]["kind"] in ("dict", "cbytes"):
             k, m = ctx.driver().call({"op": "codec.dec", "cls": name, "hex": b.hex()})
             ctx.traces += 1
@@ -204,6 +211,7 @@ def run(ctx):
         name = rng.choice(classes)
         dispatch(ctx, {"cls": name, "seed": f"{ctx.seed}/m{i}", "damage": rng.choice(["code", "drop", "extra", "kind", "key", "elem"])})
     cov = ctx.extra.pop("_cov", {})
+    ctx.extra["classes_in_theorem_scope"] = sorted(ctx.extra.get("classes_in_theorem_scope", ()))
     ctx.extra["union_alternatives_hit"] = sum(1 for k in cov if k.startswith("alt:"))
     ctx.extra["classes_hit"] = sum(1 for k in cov if k.startswith("cls:"))
     ctx.extra["optional_masks_hit"] = sum(1 for k in cov if k.startswith("mask:"))
